@@ -217,6 +217,19 @@ def register(R):
       bounded='bounded_merge_states',
       note='merge_states = left fold with merge; with the additive merge contracts the fold is order- and bracketing-independent (lemma)'))
 
+  # MinMaxAndCount: the count adds up; min / max combine by min / max and an undefined (NaN) side stays undefined,
+  # exactly as `add` treats a NaN in the data - so that one accumulator and merged shards agree
+  R.cls('MinMaxAndCount', dict(_count='rreal', _min='real', _max='real', axis='none', batch_score_fn='none'))
+  R.add(Contract(
+      f'{RS}::MinMaxAndCount.merge', PROPS, types=dict(self='MinMaxAndCount', other='MinMaxAndCount'), ret='MinMaxAndCount',
+      modifies=['self._count', 'self._min', 'self._max'],
+      ensures=['self._count == old(self._count) + other._count', 'result is self',
+               'isnan(self._min) == (isnan(old(self._min)) or isnan(other._min))',
+               'implies(not isnan(self._min), val(self._min) == min(val(old(self._min)), val(other._min)))',
+               'isnan(self._max) == (isnan(old(self._max)) or isnan(other._max))',
+               'implies(not isnan(self._max), val(self._max) == max(val(old(self._max)), val(other._max)))'],
+      bounded='bounded_partition'))
+
   R.bounded_checks['C01'] = [
       ('bounded_partition', 'every shipped metric: all shard/batch compositions (incl. empty shards) vs one batch'),
       ('bounded_row_locality', 'per-example values returned by add() do not depend on batch-mates (TopKRetrieval)'),
